@@ -605,8 +605,13 @@ def gen_goal_set(rng, n, keep_soft, n_prios=None, allow_vector=True, allow_crit=
                 s.relax = rng.choice([0.125, 0.5])
             specs.append(s)
     rng.shuffle(specs)
-    # goals of one priority sharing a key keep their generation order (the validation walks the
-    # goals in stable priority order)
+    fix_order(specs)
+    return specs
+
+
+def fix_order(specs):
+    """goals of one priority sharing a key keep their generation order (the validation walks the
+    goals in stable priority order)"""
     groups = {}
     for pos, sp in enumerate(specs):
         groups.setdefault((sp.fk, sp.prio), []).append(pos)
